@@ -134,4 +134,198 @@ theorem ext_none (e : Bytes)
   simp only [getExtension_loop1, h0]
   bool_norm
 
+open getStem in
+theorem stem_skip (f0 : Nat) (file ext : Bytes) (L : Int) (D : Option Int) (R RL : Int) (r : Bytes) (lo : Nat) :
+    ∀ (k : Nat), lo + k ≤ file.length →
+      (∀ i, lo ≤ i → i < lo + k → isSep (file.getD i 0) = false ∧ (isDot (file.getD i 0) = false ∨ D.isSome = true)) →
+      ∀ fuel, getStem_loop1 f0 (fuel + k) ⟨file, ext, 0, L, ((lo + k : Nat) : Int) - 1, D, R, RL, r⟩
+        = getStem_loop1 f0 fuel ⟨file, ext, 0, L, (lo : Int) - 1, D, R, RL, r⟩ := by
+  intro k
+  induction k with
+  | zero => intro _ _ fuel; rfl
+  | succ k ih =>
+    intro hk hs fuel
+    obtain ⟨hp, hd⟩ := hs (lo + k) (by omega) (by omega)
+    have e : ((lo + (k + 1) : Nat) : Int) - 1 = ((lo + k : Nat) : Int) := by omega
+    have h0 : ((lo + k : Nat) : Int) ≥ 0 := by omega
+    have h1 : lo + k ≤ file.length := by omega
+    rw [show fuel + (k + 1) = (fuel + k) + 1 by omega]
+    rcases hd with hd | hd
+    · simp only [e, getStem_loop1, cAt_nat, inb_nat, sep_test, dot_test, hd, hp, h0, h1]
+      bool_norm
+      exact ih (by omega) (fun i h1 h2 => hs i h1 (by omega)) fuel
+    · obtain ⟨dv, rfl⟩ := Option.isSome_iff_exists.mp hd
+      cases hdd : isDot (file.getD (lo + k) 0)
+      · simp only [e, getStem_loop1, cAt_nat, inb_nat, sep_test, dot_test, hdd, hp, h0, h1]
+        bool_norm
+        exact ih (by omega) (fun i h1 h2 => hs i h1 (by omega)) fuel
+      · simp only [e, getStem_loop1, cAt_nat, inb_nat, sep_test, dot_test, hdd, hp, h0, h1, Option.isNone_some]
+        bool_norm
+        exact ih (by omega) (fun i h1 h2 => hs i h1 (by omega)) fuel
+
+/-- the scan from the end passes a dot-free, separator-free tail and notes the dot in front of it -/
+theorem stem_dot_phase (f0 : Nat) (y : Bytes) (c : Nat) (e ext : Bytes) (hc : isDot c = true)
+    (he : ∀ z ∈ e, isSep z = false ∧ isDot z = false) (L R RL : Int) (r : Bytes) (fuel : Nat) :
+    getStem.getStem_loop1 f0 ((fuel + 1) + e.length)
+        ⟨y ++ c :: e, ext, 0, L, (((y ++ c :: e).length : Nat) : Int) - 1, none, R, RL, r⟩
+      = getStem.getStem_loop1 f0 fuel ⟨y ++ c :: e, ext, 0, L, (y.length : Int) - 1, some (y.length : Int), R, RL, r⟩ := by
+  have hlen : (y ++ c :: e).length = (y.length + 1) + e.length := by rw [len_app]; omega
+  rw [hlen, stem_skip f0 _ ext L none R RL r (y.length + 1) e.length (by rw [len_app]; omega)
+    (after_hyp y c e (fun z => isSep z = false ∧ (isDot z = false ∨ (none : Option Int).isSome = true)) (fun z hz => ⟨(he z hz).1, Or.inl (he z hz).2⟩)) (fuel + 1)]
+  have e1 : ((y.length + 1 : Nat) : Int) - 1 = (y.length : Int) := by omega
+  have h0 : (y.length : Int) ≥ 0 := by omega
+  have h1 : y.length ≤ (y ++ c :: e).length := by rw [len_app]; omega
+  simp only [e1, getStem.getStem_loop1, cAt_nat, inb_nat, dot_test, getD_append_at, hc, h0, h1, Option.isNone_none]
+  bool_norm
+
+
+open getStem in
+theorem stem_a1 (x : Bytes) (s : Nat) (d' : Bytes) (c : Nat) (e : Bytes) (hs : isSep s = true) (hc : isDot c = true)
+    (hd : ∀ z ∈ d', isSep z = false) (he : ∀ z ∈ e, isSep z = false ∧ isDot z = false) (fuel : Nat)
+    (hf : (x ++ s :: (d' ++ c :: e)).length + 1 ≤ fuel) :
+    Nstd.Generated.PathScan.getStem fuel (x ++ s :: (d' ++ c :: e)) [] = some d' := by
+  unfold Nstd.Generated.PathScan.getStem
+  have hfile : x ++ s :: (d' ++ c :: e) = (x ++ s :: d') ++ c :: e := by simp
+  have hl : (x ++ s :: (d' ++ c :: e)).length = x.length + d'.length + e.length + 2 := by simp; omega
+  obtain ⟨g, rfl⟩ : ∃ g, fuel = (((g + 1) + d'.length) + 1) + e.length :=
+    ⟨fuel - 2 - d'.length - e.length, by omega⟩
+  have hlen : decide ((0 : Int) ≤ ((x ++ s :: (d' ++ c :: e)).length : Int)) = true := by apply decide_eq_true; omega
+  have hpos : (0 : Int) + (((x ++ s :: (d' ++ c :: e)).length : Int) - 1)
+      = ((((x ++ s :: d') ++ c :: e).length : Nat) : Int) - 1 := by rw [hfile]; omega
+  simp only [List.isEmpty_nil, hlen, hpos]
+  bool_norm
+  rw [hfile, stem_dot_phase _ (x ++ s :: d') c e [] hc he _ _ _ _ ((g + 1) + d'.length)]
+  have e2 : (((x ++ s :: d').length : Nat) : Int) - 1 = (((x.length + 1) + d'.length : Nat) : Int) - 1 := by
+    rw [len_app]; omega
+  rw [e2, ← hfile, stem_skip _ _ _ _ (some _) _ _ _ (x.length + 1) d'.length (by omega)
+    (by
+      have := after_hyp x s (d' ++ c :: e) (fun z => True) (fun _ _ => trivial)
+      intro i h1 h2
+      obtain ⟨j, rfl⟩ : ∃ j, i = x.length + (j + 1) := ⟨i - x.length - 1, by omega⟩
+      rw [getD_append_after]
+      have hj : j < d'.length := by omega
+      have : (d' ++ c :: e).getD j 0 = d'.getD j 0 := by
+        simp [List.getD_eq_getElem?_getD, List.getElem?_append_left hj]
+      rw [this]
+      exact ⟨hd _ (getD_mem d' j hj), Or.inr rfl⟩) (g + 1)]
+  have e1 : ((x.length + 1 : Nat) : Int) - 1 = (x.length : Int) := by omega
+  have h0 : (x.length : Int) ≥ 0 := by omega
+  have h1 : x.length ≤ (x ++ s :: (d' ++ c :: e)).length := by omega
+  simp only [e1, getStem_loop1, cAt_nat, inb_nat, dot_test, sep_test, getD_append_at, hs, sep_not_dot s hs, h0, h1]
+  bool_norm
+  simp only [getStem_at_removeExtension, Option.isSome_some, Option.getD_some]
+  bool_norm
+  have q1 : ((x ++ s :: d').length : Int) - 0 - ((x.length : Int) + 1 - 0) = ((d'.length : Nat) : Int) := by
+    rw [len_app]; omega
+  have q2 : (x.length : Int) + 1 = ((x.length + 1 : Nat) : Int) := by omega
+  have q3 : decide ((0 : Int) ≤ ((x ++ s :: d').length : Int) - 0) = true := by apply decide_eq_true; omega
+  have q4 : decide ((0 : Int) ≤ ((x.length + 1 : Nat) : Int) - 0) = true := by apply decide_eq_true; omega
+  have q5 : decide ((0 : Int) ≤ ((d'.length : Nat) : Int)) = true := by apply decide_eq_true; omega
+  have q6 : x.length + 1 + d'.length ≤ (x ++ s :: (d' ++ c :: e)).length := by omega
+  simp only [q1]
+  simp only [q2, q3, q4, q5, q6, mkOk_nat, mk_nat]
+  bool_norm
+  simp
+
+open getStem in
+theorem stem_a2 (x : Bytes) (s : Nat) (b : Bytes) (hs : isSep s = true)
+    (hb : ∀ z ∈ b, isSep z = false ∧ isDot z = false) (fuel : Nat) (hf : (x ++ s :: b).length + 1 ≤ fuel) :
+    Nstd.Generated.PathScan.getStem fuel (x ++ s :: b) [] = some b := by
+  unfold Nstd.Generated.PathScan.getStem
+  have hl := len_app x s b
+  obtain ⟨g, rfl⟩ : ∃ g, fuel = (g + 1) + b.length := ⟨fuel - 1 - b.length, by omega⟩
+  have hlen : decide ((0 : Int) ≤ ((x ++ s :: b).length : Int)) = true := by apply decide_eq_true; omega
+  have hpos : (0 : Int) + (((x ++ s :: b).length : Int) - 1) = (((x.length + 1) + b.length : Nat) : Int) - 1 := by omega
+  simp only [List.isEmpty_nil, hlen, hpos]
+  bool_norm
+  rw [stem_skip _ _ _ _ none _ _ _ (x.length + 1) b.length (by omega)
+    (after_hyp x s b (fun z => isSep z = false ∧ (isDot z = false ∨ (none : Option Int).isSome = true))
+      (fun z hz => ⟨(hb z hz).1, Or.inl (hb z hz).2⟩)) (g + 1)]
+  have e1 : ((x.length + 1 : Nat) : Int) - 1 = (x.length : Int) := by omega
+  have h0 : (x.length : Int) ≥ 0 := by omega
+  have h1 : x.length ≤ (x ++ s :: b).length := by omega
+  simp only [e1, getStem_loop1, cAt_nat, inb_nat, dot_test, sep_test, getD_append_at, hs, sep_not_dot s hs, h0, h1]
+  bool_norm
+  simp only [getStem_at_removeExtension, Option.isSome_none]
+  bool_norm
+  have q1 : ((x ++ s :: b).length : Int) - ((x.length : Int) + 1 - 0) = ((b.length : Nat) : Int) := by omega
+  have q2 : (x.length : Int) + 1 = ((x.length + 1 : Nat) : Int) := by omega
+  have q4 : decide ((0 : Int) ≤ ((x.length + 1 : Nat) : Int) - 0) = true := by apply decide_eq_true; omega
+  have q5 : decide ((0 : Int) ≤ ((b.length : Nat) : Int)) = true := by apply decide_eq_true; omega
+  have q6 : x.length + 1 + b.length ≤ (x ++ s :: b).length := by omega
+  simp only [q1]
+  simp only [q2, q4, q5, q6, mkOk_nat, mk_nat]
+  bool_norm
+  simp
+
+open getStem in
+theorem stem_b1 (d' : Bytes) (c : Nat) (e : Bytes) (hc : isDot c = true)
+    (hd : ∀ z ∈ d', isSep z = false) (he : ∀ z ∈ e, isSep z = false ∧ isDot z = false) (fuel : Nat)
+    (hf : (d' ++ c :: e).length + 1 ≤ fuel) :
+    Nstd.Generated.PathScan.getStem fuel (d' ++ c :: e) [] = some d' := by
+  unfold Nstd.Generated.PathScan.getStem
+  have hl := len_app d' c e
+  obtain ⟨g, rfl⟩ : ∃ g, fuel = (((g + 1) + d'.length) + 1) + e.length := ⟨fuel - 2 - d'.length - e.length, by omega⟩
+  have hlen : decide ((0 : Int) ≤ ((d' ++ c :: e).length : Int)) = true := by apply decide_eq_true; omega
+  have hpos : (0 : Int) + (((d' ++ c :: e).length : Int) - 1) = ((((d' ++ c :: e).length) : Nat) : Int) - 1 := by omega
+  simp only [List.isEmpty_nil, hlen, hpos]
+  bool_norm
+  rw [stem_dot_phase _ d' c e [] hc he _ _ _ _ ((g + 1) + d'.length)]
+  have e2 : ((d'.length : Nat) : Int) - 1 = ((0 + d'.length : Nat) : Int) - 1 := by omega
+  rw [e2, stem_skip _ _ _ _ (some _) _ _ _ 0 d'.length (by omega)
+    (by
+      intro i _ h2
+      have hj : i < d'.length := by omega
+      have : (d' ++ c :: e).getD i 0 = d'.getD i 0 := by
+        simp [List.getD_eq_getElem?_getD, List.getElem?_append_left hj]
+      rw [this]
+      exact ⟨hd _ (getD_mem d' i hj), Or.inr rfl⟩) (g + 1)]
+  have h0 : ¬ (((0 : Nat) : Int) - 1 ≥ 0) := by omega
+  simp only [getStem_loop1, h0]
+  bool_norm
+  simp only [getStem_at_removeExtension, Option.isSome_some, Option.getD_some]
+  bool_norm
+  have q1 : ((d'.length : Nat) : Int) - 0 - ((0 : Int) - 0) = ((d'.length : Nat) : Int) := by omega
+  have q2 : (0 : Int) = ((0 : Nat) : Int) := by omega
+  have q3 : decide ((0 : Int) ≤ ((d'.length : Nat) : Int) - 0) = true := by apply decide_eq_true; omega
+  have q4 : decide ((0 : Int) ≤ (0 : Int) - 0) = true := by decide
+  have q5 : decide ((0 : Int) ≤ ((d'.length : Nat) : Int)) = true := by apply decide_eq_true; omega
+  have q6 : 0 + d'.length ≤ (d' ++ c :: e).length := by omega
+  simp only [q1, q3, q4, q5]
+  bool_norm
+  rw [q2, mkOk_nat, mk_nat]
+  simp only [q6]
+  bool_norm
+  simp
+
+open getStem in
+theorem stem_b2 (file : Bytes) (hb : ∀ z ∈ file, isSep z = false ∧ isDot z = false) (fuel : Nat)
+    (hf : file.length + 1 ≤ fuel) :
+    Nstd.Generated.PathScan.getStem fuel file [] = some file := by
+  unfold Nstd.Generated.PathScan.getStem
+  obtain ⟨g, rfl⟩ : ∃ g, fuel = (g + 1) + file.length := ⟨fuel - 1 - file.length, by omega⟩
+  have hlen : decide ((0 : Int) ≤ (file.length : Int)) = true := by apply decide_eq_true; omega
+  have hpos : (0 : Int) + ((file.length : Int) - 1) = ((0 + file.length : Nat) : Int) - 1 := by omega
+  simp only [List.isEmpty_nil, hlen, hpos]
+  bool_norm
+  rw [stem_skip _ _ _ _ none _ _ _ 0 file.length (by omega)
+    (all_hyp file (fun z => isSep z = false ∧ (isDot z = false ∨ (none : Option Int).isSome = true))
+      (fun z hz => ⟨(hb z hz).1, Or.inl (hb z hz).2⟩)) (g + 1)]
+  have h0 : ¬ (((0 : Nat) : Int) - 1 ≥ 0) := by omega
+  simp only [getStem_loop1, h0]
+  bool_norm
+  simp only [getStem_at_removeExtension, Option.isSome_none]
+  bool_norm
+  have q1 : (file.length : Int) - ((0 : Int) - 0) = ((file.length : Nat) : Int) := by omega
+  have q2 : (0 : Int) = ((0 : Nat) : Int) := by omega
+  have q4 : decide ((0 : Int) ≤ (0 : Int) - 0) = true := by decide
+  have q5 : decide ((0 : Int) ≤ ((file.length : Nat) : Int)) = true := by apply decide_eq_true; omega
+  have q6 : 0 + file.length ≤ file.length := by omega
+  simp only [q1, q4, q5]
+  bool_norm
+  rw [q2, mkOk_nat, mk_nat]
+  simp only [q6]
+  bool_norm
+  simp
+
 end Nstd.Path.Scan
